@@ -229,7 +229,7 @@ func (b *heapBox[T]) minimal(x T) (bool, T) {
 
 func (b *heapBox[T]) removeExact(x T) bool {
 	for i, y := range b.ref {
-		if y == x {
+		if eqv(y, x) {
 			b.ref = append(append([]T{}, b.ref[:i]...), b.ref[i+1:]...)
 			return true
 		}
@@ -359,7 +359,7 @@ func (b *heapBox[T]) CheckState() *Viol {
 		if m, y := b.minimal(pk); !m {
 			return viol(tag("C06"), "mismatch", "Peek returned %v although the contained element %v precedes it", pk, y)
 		}
-		if vals[0] != pk {
+		if !eqv(vals[0], pk) {
 			return viol(tag("C06"), "mismatch", "Values()[0] = %v but Peek() = %v", vals[0], pk)
 		}
 	}
@@ -368,7 +368,7 @@ func (b *heapBox[T]) CheckState() *Viol {
 	i := 0
 	for it.Next() {
 		idx, v := it.Cur()
-		if i >= n || idx.(int) != i || v.(T) != vals[i] {
+		if i >= n || idx.(int) != i || !eqv(v.(T), vals[i]) {
 			return viol(tag("C06"), "mismatch", "iteration element #%d = (%v, %v), Values() = %v", i, idx, v, vals)
 		}
 		i++
